@@ -226,6 +226,32 @@ func anySexp(a any) sx.S {
 	return sx.L(sx.A("unsupported"), sx.A(fmt.Sprintf("%T", a)))
 }
 
+// sortedAnySexp: anySexp with the members of every mapping sorted by key
+func sortedAnySexp(a any) sx.S {
+	switch v := a.(type) {
+	case []any:
+		l := sx.List{sx.A("l")}
+		for _, e := range v {
+			l = append(l, sortedAnySexp(e))
+		}
+		return l
+	case *ordered.MapSA:
+		m := v.ToMap()
+		l := sx.List{sx.A("m")}
+		for _, k := range sortedKeys(m) {
+			l = append(l, sx.L(sx.A(k), sortedAnySexp(m[k])))
+		}
+		return l
+	case map[string]any:
+		l := sx.List{sx.A("m")}
+		for _, k := range sortedKeys(v) {
+			l = append(l, sx.L(sx.A(k), sortedAnySexp(v[k])))
+		}
+		return l
+	}
+	return anySexp(a)
+}
+
 // decodeText: text -> what ordered.DecodeYAML gives (the model's input)
 func decodeText(text string) (any, error) {
 	var n yaml.Node
